@@ -28,6 +28,7 @@ Inductive instr :=
 | ReadQ | SetQ (b : bool) | ReadWc | SetWc (b : bool)
 | JmpIf (t : nat) | JmpIfNot (t : nat) | Jmp (t : nat)
 | SetRet (b : bool) | JmpIfRet (t : nat) | JmpIfTO (t : nat)
+| SetTO (b : bool)               (* tout := b (a wait with timeout 0 has expired when it returns) *)
 | Mark (k : nat)                 (* 0 stop exception raised, 1 loop_finalize ran, 2 got signal, 3 timed out *)
 | MarkLate                       (* ghost: late := flag (the wait starts after the stop request) *)
 | Halt.
@@ -138,6 +139,7 @@ Section Machine.
         | SetRet b => internal f (put s t (set_ret nxt b)) t
         | JmpIfRet k => internal f (put s t (if ret x then set_pc x k else nxt)) t
         | JmpIfTO k => internal f (put s t (if tout x then set_pc x k else nxt)) t
+        | SetTO b => internal f (put s t (set_tout nxt b)) t
         | Mark k => internal f (put s t (set_mark nxt k)) t
         | MarkLate => internal f (put s t (set_late nxt (flag s))) t
         | _ => s       (* visible instruction or Halt: stop here *)
@@ -276,6 +278,45 @@ Definition prog_getsig (timed : bool) : list instr :=
     (*33*) Rel 0;                 (* leaving `with self._queue_cond` *)
     (*34*) Halt ].
 
+(* get_next_signal(timeout=0) called by the task thread (a task polling its receiver): the same code as
+   prog_getsig true, where Condition.wait(0) releases and re-takes the queue lock without parking *)
+Definition prog_getsig_poll : list instr :=
+  [ MarkLate;
+    Acq 0;                 (* with self._queue_cond *)
+    ReadQ;                 (* if len(self._queue) == 0 *)
+    JmpIf 31;
+    Acq 1;                 (* wait_for_condition: with self._wait_cond_lock *)
+    SetWc true;            (*   self._wait_cond = cond *)
+    Rel 1;
+    ReadQ;                 (* wait_for: predicate() or stop_requested.is_set() *)
+    JmpIf 16;
+    ReadFlag;
+    JmpIf 16;
+    JmpIfTO 18;            (* previous wait timed out: waittime <= 0 -> break *)
+    Rel 0; Acq 0; SetTO true;   (* Condition.wait(0): release the lock, find the wait expired, take the lock again (never parks; a later notify finds no waiter) *)
+    Jmp 7;
+    SetRet true;
+    Jmp 19;
+    SetRet false;
+    ReadFlag;              (* if self.task._stop_requested.is_set(): raise QMI_TaskStopException *)
+    JmpIf 26;
+    Acq 1;                 (* finally: with self._wait_cond_lock: self._wait_cond = None *)
+    SetWc false;
+    Rel 1;
+    JmpIfRet 31;
+    Jmp 34;                (* not ret: raise QMI_TimeoutException *)
+    Acq 1;                 (* finally on the exception path *)
+    SetWc false;
+    Rel 1;
+    Mark 0;
+    Jmp 35;
+    SetQ false;            (* return self._queue.popleft() *)
+    Mark 2;
+    Jmp 35;
+    Mark 3;
+    Rel 0;                 (* leaving `with self._queue_cond` *)
+    Halt ].
+
 (* QMI_Task.sleep(duration): if self._stop_requested.wait(duration): raise QMI_TaskStopException *)
 Definition prog_sleep : list instr :=
   [ MarkLate; EvWait true; JmpIf 5; Mark 3; Jmp 6; Mark 0; Halt ].
@@ -288,7 +329,7 @@ Definition prog_loop : list instr :=
   [ (*0*) MarkLate; (*1*) ReadFlag; (*2*) JmpIf 8; (*3*) EvWait true; (*4*) JmpIf 6; (*5*) Jmp 1;
     (*6*) Mark 0; (*7*) Jmp 8; (*8*) Mark 1; (*9*) Halt ].
 
-Inductive variant := VSleep | VGetSig | VGetSigTimed | VLoop | VGetSigReader | VGetSigTimedReader.
+Inductive variant := VSleep | VGetSig | VGetSigTimed | VLoop | VGetSigReader | VGetSigTimedReader | VGetSigPoll.
 
 Definition progs (v : variant) (env : bool) (t : tid) : list instr :=
   match t with
@@ -302,5 +343,6 @@ Definition progs (v : variant) (env : bool) (t : tid) : list instr :=
           | VGetSig | VGetSigReader => prog_getsig false
           | VGetSigTimed | VGetSigTimedReader => prog_getsig true
           | VLoop => prog_loop
+          | VGetSigPoll => prog_getsig_poll
           end
   end.
